@@ -388,6 +388,25 @@ let handle (line : string) : string =
         | None -> "none"
         | Some (k, l) -> show_loc l) in
       Printf.sprintf "(run out=%s status=%d diag=%s)" (hex_of_str rr.rr_stdout) (int_of_z rr.rr_status) diag
+  | ["ROUNDTRIP"; i; h] ->
+      (* evaluate an expression, display the value, read the text back as a quoted datum *)
+      let i = int_of_string i in
+      let fresh_show v = let saved = Hashtbl.copy vec_ids in Hashtbl.reset vec_ids;
+        let s = show_value 0 v in Hashtbl.reset vec_ids; Hashtbl.iter (Hashtbl.replace vec_ids) saved; s in
+      let ((r, c), _) = eval_text !w_fs cwd !efuel_ref (str_of_string (hex_decode h)) (ctx_of i) in
+      commit i c;
+      (match r with
+       | Ok (Some v) ->
+           (match display (nat_of_int 10000) !w_st v with
+            | None -> "(rt-unprintable)"
+            | Some t ->
+                let quoted = str_of_string "(quote " @ t @ str_of_string ")" in
+                let ((r2, c2), _) = eval_text !w_fs cwd !efuel_ref quoted (ctx_of i) in
+                commit i c2;
+                let back = (match r2 with Ok (Some v2) -> fresh_show v2 | other -> show_outcome other) in
+                ignore (take_side ());
+                Printf.sprintf "(rt %s | %s | %s)" (hex_of_str t) (fresh_show v) back)
+       | other -> ignore (take_side ()); show_outcome other)
   | ["BRACKET"; h] -> show_bool (check_bracket_closed (str_of_string (hex_decode h)))
   | "REPL" :: hs ->
       (* a REPL session on a fresh standard interpreter: input lines (hex, "-" for an empty line) *)
